@@ -1950,6 +1950,10 @@ def fold_loop(I, st, fr, e, seq, pat, body, roots, run_body, ind=None, skip_boun
                 return abort()
             old = ("get", P, ip)
             if fval[0] == "nat":
+                rec = _prefix_recurrence(I, res, S, P, t0, ip, fval[1], all_marks, nat_atoms)
+                if rec is not None:
+                    final[(r, path)] = VSeq(rec)
+                    continue
                 val = deep_subst(fval[1], {old: Poly.atom(OLD)})
                 if mentions(val, all_marks):
                     return abort()
@@ -2086,6 +2090,32 @@ def deep_subst(x, mapping):
     if isinstance(x, tuple):
         return tuple(deep_subst(y, mapping) for y in x)
     return x
+
+
+def _prefix_recurrence(I, st, S, P, t0, ip, val, all_marks, nat_atoms):
+    """`v[i + 1] = v[i] + g(x_i)` for i = 0, 1, .. over the elements of S, v of length |S| + 1: the prefix sums of g
+    shifted by v[0] (the recurrence form of a cumulative sum)."""
+    ix = None
+    for a in ip.atoms():
+        if isinstance(a, tuple) and a and a[0] == "enumidx":
+            ix = a
+    if ix is None or ip != Poly.atom(ix) + 1:
+        return None
+    base = ix[1]
+    if not (base == S or (S[0] == "enum" and S[1] == base) or (S[0] in ("arange",) and False)):
+        return None
+    prev = Poly.atom(("get", P, Poly.atom(ix)))
+    g = val - prev
+    if mentions(g, all_marks) or (g.atoms() & nat_atoms):
+        return None
+    if not st.eq(t_len(t0), t_len(base) + 1):
+        return None
+    G = lift_map(I, st, S, VNat(g))
+    if G is None:
+        return None
+    import prims
+    v0 = prims.get_value(st, t0, Poly.const(0))
+    return mk_shift(v0, ("cumsum", G))
 
 
 def fold_update_term(I, st, S, t0, ip, fval):
